@@ -61,8 +61,8 @@ ALPHABET = ['1', '0', 'a', '.', '+', '~', '-', ':', ' ', '\n', '_', 'é', '٣', 
 ENUM_LEN = {'quick': 4, 'thorough': 5}
 SMALL_ALPHABET = ['1', 'a', ':', '-']
 SMALL_LEN = {'quick': (5, 7), 'thorough': (6, 8)}
-RANDOM_STRINGS = {'quick': 120000, 'thorough': 4000000}
-HISTORIES = {'quick': 30000, 'thorough': 1200000}
+RANDOM_STRINGS = {'quick': 80000, 'thorough': 4000000}
+HISTORIES = {'quick': 20000, 'thorough': 1200000}
 DPKG_SAMPLE = 300
 
 FLOORS = {'quick': {'nontrivial': 50000,
@@ -339,7 +339,13 @@ def cases(ctx):
         strings = []
         while len(strings) < DPKG_SAMPLE:
             s = gen_string(r)
-            if s and not s.startswith('-') and '\x00' not in s and not any(c.isspace() for c in s):
+            # dpkg reports only the FIRST problem it meets and merely warns "does not start with digit" before it
+            # looks at the character sets, so the sample is restricted to upstreams starting with a digit; strtol
+            # also takes a signed epoch ("+1:"), which Policy (unsigned integer) does not.
+            pos = s.index(':') + 1 if ':' in s else 0
+            if s[pos:pos + 1] not in dpkgver.ASCII_DIGITS or s[pos:pos + 1] == '':
+                s = s[:pos] + r.choice('0129') + s[pos:]
+            if not s.startswith(('-', '+')) and '\x00' not in s and not any(c.isspace() for c in s):
                 strings.append(s)
         yield {'kind': 'dpkg', 'strings': strings}
 
